@@ -439,7 +439,9 @@ func effectiveCharsets(s *schema.Schema) string {
 		tcs, tco := get(t.Attrs, scs, sco)
 		out = append(out, fmt.Sprintf("%s=%s/%s", t.Name, tcs, tco))
 		for _, c := range t.Columns {
-			if _, ok := c.Type.Type.(*schema.StringType); !ok {
+			switch c.Type.Type.(type) {
+			case *schema.StringType, *schema.EnumType, *mysql.SetType:
+			default:
 				continue
 			}
 			own := false
